@@ -90,9 +90,17 @@ def validate_component(comp, strict=False):
     """
     # Check text fields for invalid characters
     for name, value in comp.items():
-        if isinstance(value, vText):
+        # A property that occurs more than once is a list of values
+        for v in value if isinstance(value, list) else [value]:
+            if isinstance(v, vCategory):
+                texts = [str(cat) for cat in v.cats]
+            elif isinstance(v, str):
+                # vText, but also e.g. the values of X- properties
+                texts = [v]
+            else:
+                continue
             for c in _INVALID_CONTROL_CHARACTERS:
-                if c in value:
+                if any(c in text for text in texts):
                     yield "Invalid character {} in field {}".format(
                         c.encode("unicode_escape"),
                         name,
